@@ -203,7 +203,22 @@ func genFeeCase(rt *rapid.T, w *chain.World, n *chain.Node, c *harness.Case) fee
 		c.NonTrivial()
 	}
 	funded := w.AllFunded()
-	signerKind := rapid.SampledFrom([]string{"single", "single", "singleNoPubKey", "multisig", "multisig"}).Draw(rt, "signerKind")
+	signerKind := rapid.SampledFrom([]string{"single", "single", "singleNoPubKey", "multisig", "multisig", "outputKeyEdit"}).Draw(rt, "signerKind")
+	outIdx := -1
+	if signerKind == "outputKeyEdit" {
+		// an edit-stake of a node signed by its OUTPUT key: the fee is owed by the key that signed, not by the first
+		// declared signer (the operator)
+		for i := range w.Nodes {
+			if w.Spec.Nodes[i].ViaTx && !w.Outputs[i].PublicKey().Equals(w.Nodes[i].PublicKey()) {
+				outIdx = i
+			}
+		}
+		if outIdx < 0 {
+			signerKind = "single"
+		} else {
+			c.Label("signed-by-output-key")
+		}
+	}
 	sigKind := rapid.SampledFrom([]string{"valid", "valid", "valid", "otherChain", "overOtherFee", "garbage", "wrongKey"}).Draw(rt, "sigKind")
 	memoLen := rapid.SampledFrom([]int{0, 0, 10, 75, 76, 200}).Draw(rt, "memoLen")
 	memo := strings.Repeat("m", memoLen)
@@ -271,6 +286,21 @@ func genFeeCase(rt *rapid.T, w *chain.World, n *chain.Node, c *harness.Case) fee
 		}
 		fc = feeCase{tx: tx, payer: from, from: from, to: to, msgAmount: amt}
 		fc.desc = fmt.Sprintf("send %d multisig(%d members,%s)->%s fee=%s(%s) sig=%s memo=%d", amt, len(w.MultiMembers), variant, w.KeyNameAddr(to), feeKind, declared, sigKind, memoLen)
+	} else if signerKind == "outputKeyEdit" {
+		k := w.Outputs[outIdx]
+		ns := w.Spec.Nodes[outIdx]
+		// same amount, chains and output: no coins move besides the fee whether or not the edit is accepted
+		msg := &nodesTypes.MsgStake{PublicKey: w.Nodes[outIdx].PublicKey(), Chains: ns.Chains, Value: sdk.NewInt(ns.Stake), ServiceUrl: "https://node.example:443", Output: chain.Addr(k), RewardDelegators: ns.Delegators}
+		o := chain.TxOpts{ChainID: chainID, Msg: msg, Fee: declared, Memo: memo, Entropy: entropy, Signer: k, IncludePubKey: true, SignFee: signFee}
+		switch sigKind {
+		case "garbage":
+			o.SigOverride = []byte(strings.Repeat("\x17", 64))
+		case "wrongKey":
+			o.Signer = chain.Key("stranger-a")
+			o.PubKeyOverride = k.PublicKey()
+		}
+		fc = feeCase{tx: chain.SignTxOpts(o), payer: chain.Addr(k), from: chain.Addr(k), to: chain.Addr(k), msgAmount: 0}
+		fc.desc = fmt.Sprintf("edit-stake node%d (unchanged) signed by its output key fee=%s(%s) sig=%s memo=%d", outIdx, feeKind, declared, sigKind, memoLen)
 	} else {
 		k := funded[rapid.IntRange(0, len(funded)-1).Draw(rt, "from")]
 		from := chain.Addr(k)
